@@ -161,10 +161,12 @@ class _Recorder:
     def __call__(self, jacobian, data, weights, damping=None, copy_jacobian=False):
         self.calls.append({"jacobian": np.array(jacobian, dtype=object).copy(), "data": data, "weights": weights, "damping": damping})
         if self.passthrough:
-            return self.real(jacobian, data, weights, damping=damping, copy_jacobian=copy_jacobian)
-        out = np.empty(np.shape(jacobian)[1], dtype=object)
-        for j in range(out.size):
-            out[j] = E.SymReal(E.ENGINE.new("param"))
+            out = self.real(jacobian, data, weights, damping=damping, copy_jacobian=copy_jacobian)
+        else:
+            out = np.empty(np.shape(jacobian)[1], dtype=object)
+            for j in range(out.size):
+                out[j] = E.SymReal(E.ENGINE.new("param"))
+        self.calls[-1]["out"] = np.array(out).copy()
         return out
 
 
@@ -239,6 +241,23 @@ def h_routing(ctx):
     else:
         ctx.claim("no weights: the solver gets None", call["weights"] is None)
     ctx.claim("the design matrix is the public jacobian of the data coordinates (and force coordinates)", And(np.shape(call["jacobian"]) == np.shape(jref), And([eq(a, b) for a, b in zip(np.ravel(call["jacobian"]), np.ravel(jref))])))
+    # the fitted parameters are the solver's answer, untouched, and predictions are the public jacobian at the query times them
+    params = est.coef_ if kind == "trend" else est.force_
+    ok = np.shape(params) == np.shape(call["out"])
+    ctx.claim("the fitted parameters (coef_ / force_) are exactly what the solver returned", And(ok, And([eq(a, b) for a, b in zip(np.ravel(params), np.ravel(call["out"]))]) if ok else False))
+    qe, qn = np.array([0.7, 1.9]), np.array([1.1, -0.4])
+    with warnings.catch_warnings():
+        warnings.simplefilter("ignore")
+        pred = est.predict((qe, qn))
+        jq = est.jacobian((qe, qn)) if kind == "trend" else est.jacobian((qe, qn), est.force_coords_ if kind == "spline" else est.force_coords)
+    preds = list(pred) if isinstance(pred, tuple) else [pred]
+    flat = [v for comp in preds for v in np.ravel(comp)]
+    if ok and np.shape(jq) == (len(flat), np.size(call["out"])):
+        for r in range(len(flat)):
+            exp = sum(jq[r, c] * np.ravel(call["out"])[c] for c in range(np.size(call["out"])))
+            ctx.claim("predictions equal the public jacobian at the query points times the solver's answer (independently solved problem)", eq(flat[r], exp) if ctx.sym else _loose_eq(flat[r], exp, sum(abs(float(jq[r, c]) * float(np.ravel(call["out"])[c])) for c in range(np.size(call["out"]))) + 1.0))
+    else:
+        ctx.claim("predictions equal the public jacobian at the query points times the solver's answer (independently solved problem)", False)
     if kind == "trend" or cfg.get("undamped"):
         ctx.claim("no damping requested: the solver gets None", call["damping"] is None)
     else:
